@@ -304,6 +304,33 @@ def traceFrames (limit : Int) (sc : Scenario) : List Frame :=
 def trace (files : List FileEnt) (limit : Int) (sc : Scenario) : List FrameOut :=
   (traceFrames limit sc).map (location files)
 
+/-! ## the configured limits of a runtime and `Copy()` -/
+
+/-- runtime.go:66-67 `stackLimit`, `traceLimit` -/
+structure Limits where
+  trace : Int
+  stack : Int
+deriving Repr, DecidableEq
+
+/-- otto.go:246 `New()`: `traceLimit = 10`; no stack-depth limit -/
+def newLimits : Limits := { trace := 10, stack := 0 }
+
+/-- clone.go:19-24 `(*runtime).clone`: `stackLimit: rt.stackLimit, traceLimit: rt.traceLimit` -/
+def cloneLimits (l : Limits) : Limits := { stack := l.stack, trace := l.trace }
+
+/-- `Copy()` applied `n` times -/
+def cloneN : Nat → Limits → Limits
+  | 0, l => l
+  | n + 1, l => cloneN n (cloneLimits l)
+
+/-- the scope chain of `depth` nested script calls below the global code, each call site recorded at `off` -/
+def nestStack (depth : Nat) (off : Int) : Stack :=
+  List.replicate (depth + 1) { callee := "r", file := some 0, offset := off }
+
+/-- frames in the trace of an error raised at the bottom of `depth` nested calls on a runtime with limits `l` -/
+def traceCount (l : Limits) (depth : Nat) : Nat :=
+  (newErrorTrace (nestStack depth 1) l.trace 0 (some 1)).length
+
 /-! ## which error the interpreter raises for which situation (the `panicXxxError` call sites) -/
 
 inductive ErrKind
